@@ -14,7 +14,7 @@ import numpy as np
 import vlib, exprs, multi
 import c01
 
-ENV = json.load(open(os.path.join(vlib.VERIF, 'envelopes.json')))
+ENV = json.load(open(os.environ.get('VERIF_ENVELOPES') or os.path.join(vlib.VERIF, 'envelopes.json')))
 K_HONEST = ENV['honesty']['K']
 RECS = None
 MREC = None
@@ -132,7 +132,7 @@ def run_prog_case(case):
     table, (pi, m, n, order, a, kind, sk, arr, cval) = case
     r = RECS[pi]
     c = r['c'][0] / r['c'][1]
-    f0 = exprs.make_fun(r['prog'], c, a)
+    f0 = exprs.make_fun(r['prog'], c, a, powop=(pi + n + order) % 2 == 0, p=r.get('p', 0.0))
     jf = np.array(exprs.jet_floats(r['jet']))
     s0 = float(np.max(np.abs(jf)))
     seen = [0.0, 0.0]
@@ -237,6 +237,8 @@ def run(tier, rep):
         if k not in seen:
             seen.add(k)
             uniq.append(r)
+    ngen0 = len(uniq)
+    uniq = uniq + c01.generic_records(uniq, tier, seed + 1)
     RECS = c01.RECS = uniq
     cases = c01.make_cases(uniq, tier, seed + 1)
     outs = vlib.pool_map(run_prog_case, [(table, c) for c in cases], chunksize=16)
@@ -245,7 +247,7 @@ def run(tier, rep):
     for case, o in zip(cases, outs):
         pi, m, n, order, a, kind, sk, arr, cval = case
         r = uniq[pi]
-        name = '%s @ c=%s a=%r | %s n=%d order=%d step=%s%s' % ('.'.join(r['prog']), '/'.join(map(str, r['c'])), a, m, n, order, kind, ' array' if arr else '')
+        name = '%s @ c=%s a=%r%s | %s n=%d order=%d step=%s%s' % ('.'.join(r['prog']), '/'.join(map(str, r['c'])), a, ' inner point %r' % r['p'] if 'p' in r else '', m, n, order, kind, ' array' if arr else '')
         if o[0] == 'raise':
             continue                       # C01 reports raising calls
         _, vals, est, probs, tame = o
@@ -266,13 +268,13 @@ def run(tier, rep):
             if err > floor and e > 0:
                 ratios.append(((err - floor) / e, name))
             if not err <= K_HONEST * e + floor:
-                rep.violation('dishonest:%s:n=%d' % (m, n), dict(prog=r['prog'], c=r['c'], a=a, method=m, n=n, order=order, step=[kind, sk], got=[v.real, v.imag], exact=exact, error_estimate=e, floor=floor),
+                rep.violation('dishonest:%s:n=%d%s' % (m, n, c01.cell_suffix(r, m, n)), dict(prog=r['prog'], c=r['c'], a=a, inner=r.get('p', 0.0), method=m, n=n, order=order, step=[kind, sk], got=[v.real, v.imag], exact=exact, error_estimate=e, floor=floor),
                               '%s: |result - exact| = %.3g but error_estimate = %.3g (K = %g, floor %.3g)' % (name, err, e, K_HONEST, floor))
                 break
     # anchors: on well-conditioned functions (exp, sin, cosh) the estimate ITSELF has to cover the error - no accuracy
     # envelope is involved, only a rounding floor relative to the exact value (worst ratio observed: 5.5)
     acases = []
-    for pi, r in enumerate(uniq):
+    for pi, r in enumerate(uniq[:ngen0]):
         if r['prog'] in [list(p) for p in c01.ANCHOR_PROGS] and r['c'][0] / r['c'][1] in (1.0, 3.0):
             for m in ('central', 'forward', 'backward', 'complex', 'multicomplex'):
                 for n in range(1, c01.NMAX[m] + 1):
@@ -299,7 +301,7 @@ def run(tier, rep):
     # single-estimate calls (scalar step)
     rnds = random.Random(seed + 3)
     scases = []
-    for pi, r in enumerate(uniq):
+    for pi, r in enumerate(uniq[:ngen0]):
         if not r['entire'] or (tier == 'quick' and rnds.random() > 0.5):
             continue
         for m in ('central', 'forward', 'backward', 'complex'):
